@@ -555,7 +555,7 @@ def judge(env, case, r, V0):
             all_survivable = False
             break
         first_val = (fn, sv[1])
-    nretry = sum(1 for _, fn, f in fired if errclass(fl, f) == "retry" and fn in RETRY_FNS)
+    nretry = sum(1 for _, fn, f in fired if errclass(fl, f, fn) == "retry" and fn in RETRY_FNS)
     if nretry >= 33:
         allowed.add("AD")          # retried 33 times, then converted to AccessDenied (documented)
     if kind == "ok":
